@@ -100,6 +100,9 @@ type RunOpts struct {
 	// writing "\x03" to it is what pressing Ctrl-C does.
 	Pty     bool
 	WithPty func(pid int, master *os.File)
+	// Wrapper is a command line that grog is started through (e.g. strace with its options):
+	// Wrapper[0] Wrapper[1:]... <grog> <args>. The wrapper must exit with grog's status.
+	Wrapper []string
 }
 
 func cpuOf(pid int) (int64, bool) {
@@ -120,6 +123,36 @@ func cpuOf(pid int) (int64, bool) {
 	fmt.Sscan(f[11], &ut)
 	fmt.Sscan(f[12], &st)
 	return ut + st, true
+}
+
+// childrenOf lists the processes whose parent is pid.
+func childrenOf(pid int) []int {
+	ents, _ := os.ReadDir("/proc")
+	var out []int
+	for _, e := range ents {
+		var p int
+		if _, err := fmt.Sscan(e.Name(), &p); err != nil {
+			continue
+		}
+		b, err := os.ReadFile(fmt.Sprintf("/proc/%d/stat", p))
+		if err != nil {
+			continue
+		}
+		s := string(b)
+		i := strings.LastIndex(s, ")")
+		if i < 0 {
+			continue
+		}
+		f := strings.Fields(s[i+1:])
+		var pp int
+		if len(f) > 1 {
+			fmt.Sscan(f[1], &pp)
+		}
+		if pp == pid {
+			out = append(out, p)
+		}
+	}
+	return out
 }
 
 func groupCPU(pgid int) (int64, int) {
@@ -150,6 +183,10 @@ func (m *Machine) Run(args []string, o RunOpts) *Result {
 	}
 	ctx := context.Background()
 	cmd := exec.CommandContext(ctx, m.Bin, args...)
+	if len(o.Wrapper) > 0 {
+		wa := append(append(append([]string{}, o.Wrapper[1:]...), m.Bin), args...)
+		cmd = exec.CommandContext(ctx, o.Wrapper[0], wa...)
+	}
 	cmd.Dir = filepath.Join(m.Workspace, filepath.FromSlash(o.Cwd))
 	env := []string{
 		"PWD=" + cmd.Dir, // what a shell would export: keeps a symlinked path symlinked for os.Getwd
@@ -248,7 +285,15 @@ func (m *Machine) Run(args []string, o RunOpts) *Result {
 		time.Sleep(3 * time.Second)
 		c2, n := groupCPU(pid)
 		res.Hang = c2-c1 <= 15 && n <= 1
-		_ = syscall.Kill(pid, syscall.SIGQUIT)
+		if len(o.Wrapper) > 0 {
+			// the wrapper (a tracer) is one more process of the group and not the one to dump
+			res.Hang = c2-c1 <= 15 && n <= 2
+			for _, c := range childrenOf(pid) {
+				_ = syscall.Kill(c, syscall.SIGQUIT)
+			}
+		} else {
+			_ = syscall.Kill(pid, syscall.SIGQUIT)
+		}
 		select {
 		case err = <-done:
 		case <-time.After(10 * time.Second):
